@@ -5,7 +5,8 @@
     right-hand sides are the time-of-day mathematics of Spec/TimeOfDay.v (acceptance predicates,
     field decomposition, the one-leap-second timeline [tl_add]/[tl_diff]/[tl_shift]). *)
 From Coq Require Import ZArith List Bool.
-From V Require Import Base.Int Base.IO Model.TimeDelta Model.Time Spec.TimeOfDay Proofs.C06 Proofs.Time Proofs.C07.
+From V Require Import Base.Int Base.IO Model.TimeDelta Model.Time Spec.TimeOfDay Spec.Gregorian Proofs.C06 Proofs.Time Proofs.C07.
+From V Require Model.DateTime Proofs.C03 Proofs.C07Ndt.
 Open Scope Z_scope.
 
 (* constructors: accepted exactly when hour < 24, minute < 60, second < 60 and the nanosecond field is
@@ -195,3 +196,37 @@ Example C07_hypotheses_inhabited :
   valid (mk_td TD_MAX_secs_lit 807000000) /\ valid (mk_td (-9223372036854776) 193000000) /\ valid (mk_td (-1) 1).
 Proof. exact inhabited_states. Qed.
 Print Assumptions C07_hypotheses_inhabited.
+
+(* date-times with a leap-second operand: the time of day follows the timeline rules and the carry is
+   applied to the date ([vdate]/[dn]: valid date and its proleptic Gregorian day number, Proofs/C03.v);
+   refused exactly when the date leaves the representable range.  Modulo the stated specification
+   [add_days_ok] of the shared Date model's add_days (the date properties discharge it), as in C03:
+   the full statement without that premise is the same text with [add_days_ok] proved. *)
+Theorem C07_ndt_leap_add_partial : Proofs.C03.add_days_ok -> forall a d,
+  Proofs.C03.vdate (DateTime.nd_date a) -> tvalid (DateTime.nd_time a) -> valid d ->
+  exists r, DateTime.ndt_checked_add_signed a d = Val r /\
+    match r with
+    | Some b =>
+        DateTime.nd_time b = fst (add_result (tsecs (DateTime.nd_time a)) (tfrac (DateTime.nd_time a)) (ns d)) /\
+        Proofs.C03.vdate (DateTime.nd_date b) /\
+        Proofs.C03.dn (DateTime.nd_date b) = Proofs.C03.dn (DateTime.nd_date a)
+          + snd (add_result (tsecs (DateTime.nd_time a)) (tfrac (DateTime.nd_time a)) (ns d)) / 86400
+    | None => dn_in_range (Proofs.C03.dn (DateTime.nd_date a)
+          + snd (add_result (tsecs (DateTime.nd_time a)) (tfrac (DateTime.nd_time a)) (ns d)) / 86400) = false
+    end.
+Proof. exact Proofs.C07Ndt.ndt_leap_add. Qed.
+Print Assumptions C07_ndt_leap_add_partial.
+Theorem C07_ndt_leap_sub_partial : Proofs.C03.add_days_ok -> forall a d,
+  Proofs.C03.vdate (DateTime.nd_date a) -> tvalid (DateTime.nd_time a) -> valid d ->
+  exists r, DateTime.ndt_checked_sub_signed a d = Val r /\
+    match r with
+    | Some b =>
+        DateTime.nd_time b = fst (add_result (tsecs (DateTime.nd_time a)) (tfrac (DateTime.nd_time a)) (- ns d)) /\
+        Proofs.C03.vdate (DateTime.nd_date b) /\
+        Proofs.C03.dn (DateTime.nd_date b) = Proofs.C03.dn (DateTime.nd_date a)
+          + snd (add_result (tsecs (DateTime.nd_time a)) (tfrac (DateTime.nd_time a)) (- ns d)) / 86400
+    | None => dn_in_range (Proofs.C03.dn (DateTime.nd_date a)
+          + snd (add_result (tsecs (DateTime.nd_time a)) (tfrac (DateTime.nd_time a)) (- ns d)) / 86400) = false
+    end.
+Proof. exact Proofs.C07Ndt.ndt_leap_sub. Qed.
+Print Assumptions C07_ndt_leap_sub_partial.
